@@ -473,6 +473,27 @@ def rule_cut_goto(s, cuts):
     out.append(s[pos:])
     return ''.join(out), n
 
+def rule_cut_recursion(s, fns):
+    """R-rec: inside the body of f, a call f(...) becomes __verif_rec_f(...) (harness stub: checks the
+    callee-side precondition and stands for the callee's own contract, proved in another harness)."""
+    if not fns:
+        return s, 0
+    toks = tokenize(s)
+    funcs = find_functions(toks)
+    edits = []
+    for name, ds, bs, be in funcs:
+        if name not in fns: continue
+        for i in range(bs, be):
+            if toks[i][0] == name and toks[i + 1][0] == '(':
+                edits.append((toks[i][1], toks[i][2], '__verif_rec_' + name))
+    if len(edits) < len(fns):
+        raise ExtractionError('cut_recursion: recursive call not found for %s' % fns)
+    out = []; pos = 0
+    for a, b, t in sorted(edits):
+        out.append(s[pos:a]); out.append(t); pos = b
+    out.append(s[pos:])
+    return ''.join(out), len(edits)
+
 def rule_rmw_extra(s, extra):
     """k-th __VERIF_RMW_EXTRA token inside function f -> ', <extra assigns>' (meta rmw_extra {"f#k": "a, b"}) or nothing"""
     if '__VERIF_RMW_EXTRA' not in s:
@@ -530,6 +551,7 @@ def extract(meta, harness_path, workdir, native=False):
     sliced, names = rule_named(sliced)
     sliced, fired['R-rmwx'] = rule_rmw_extra(sliced, meta.get('rmw_extra', {}))
     sliced, fired['R-cut'] = rule_cut_goto(sliced, meta.get('cut_goto', {}))
+    sliced, fired['R-rec'] = rule_cut_recursion(sliced, meta.get('cut_recursion', []))
     sliced, fired['R-trap'] = rule_trap(sliced)
     sliced, fired['R-ovl'] = rule_ovl(sliced)
     sliced, fired['R-apply'] = rule_apply(sliced)
